@@ -12,7 +12,7 @@ for id in $ids; do
   d=seeded/$id; [ -f $d/patch.diff ] || continue
   prop=$(python3 -c "import json;print(json.load(open('$d/meta.json'))['property'])")
   git -C /repo apply /verif/$d/patch.diff || { echo "$id: patch does not apply"; continue; }
-  out=$(./check $prop quick 2>&1); rc=$?
+  out=$(VCGO_SCRATCH=1 ./check $prop quick 2>&1); rc=$?
   git -C /repo checkout -- .
   viol=$(echo "$out" | grep -c "^VIOLATION property=$prop")
   python3 - "$d/meta.json" "$rc" "$viol" "$(echo "$out" | grep '^failed obligation' | head -6)" <<'PY'
